@@ -236,7 +236,7 @@ def discriminating_path(
     disc_path: List[Node] = []
 
     # parents of c form the discriminating path
-    cparents = graph.parents(c)
+    cparents = set(graph.parents(c))
 
     # keep track of the distance searched
     distance = 0
